@@ -40,7 +40,15 @@ class RestoreReadFileSystem:
 
 class RealRestoreReadFileSystem(RestoreReadFileSystem):
     def path_exists(self, path):
-        return os.path.lexists(path)
+        # os.path.lexists() answers False for every error; only "it is not
+        # there" may mean that nothing would be overwritten
+        try:
+            os.lstat(path)
+        except OSError as e:
+            if e.errno in (errno.ENOENT, errno.ENOTDIR):
+                return False
+            raise
+        return True
 
 
 @six.add_metaclass(ABCMeta)
